@@ -26,6 +26,9 @@ func (x *Exec) intercept(st *State, fn *ssa.Function, args []*Term) ([]Outcome, 
 	case "W":
 		// W[T](x): x tagged with its static type T (kept even when T is an interface type)
 		t := types.Unalias(fn.TypeArgs()[0])
+		if it, ok := t.Underlying().(*types.Interface); ok && it.NumMethods() == 0 && args[0].Op == "box" {
+			return ret(args[0]) // an `any` that already carries its dynamic type
+		}
 		name := "box_" + shortName(types.TypeString(t, nil))
 		c.boxTypes[name] = t
 		c.declare(name, []*Sort{args[0].Sort}, c.Iface)
@@ -52,7 +55,29 @@ func (x *Exec) intercept(st *State, fn *ssa.Function, args []*Term) ([]Outcome, 
 		return ret(v)
 	case "EqT", "EqTP":
 		return x.eqT(st, args[0], args[1], o.Name() == "EqTP"), true
+	case "Old":
+		if x.entryState == nil {
+			return abortOut(st, "Old(): only in function contracts"), true
+		}
+		es := x.entryState.clone()
+		for id, v := range st.cells {
+			if _, ok := es.cells[id]; !ok {
+				es.cells[id] = v // allocated after entry (ghost variables of the clause)
+			}
+		}
+		es.pc = append([]*Term(nil), st.pc...)
+		es.facts = append([]*Term(nil), st.facts...)
+		es.known = st.known
+		es.trace = nil
+		outs := x.applyFn(es, x.unboxAny(args[0]), nil, false)
+		v, _, facts := x.mergeOuts(es, outs, c.Iface)
+		if v == nil {
+			return abortOut(st, "Old(): expression outside the supported subset"), true
+		}
+		x.assumeFact(st, facts)
+		return ret(v)
 	case "Begin":
+		x.entryState = st.clone()
 		st.funcTrace = nil
 		st.trace = nil
 		st.writes = nil
